@@ -255,6 +255,16 @@ def s26(rng):
     return "DdtGaussian", cfg, h, True
 
 
+@scen("lambda_mst/compact-support likelihood (some draws have L = 0)")
+def s27(rng):
+    cfg, h = base_cfg(rng, "DdtHistKDE")
+    cfg.update(lambda_mst_distribution="GAUSSIAN", mst_ifu=False)
+    cfg["num_distribution_draws"] = rng.choice([8, 12, 20])
+    cfg["_compact"] = rng.choice(["tophat", "epanechnikov", "linear"])
+    h["kwargs_lens"].update(lambda_mst_sigma=0.25)
+    return "DdtHistKDE", cfg, h, True
+
+
 @scen("all zero")
 def s24(rng):
     cfg, h = base_cfg(rng, "DdtGaussKin")
@@ -279,6 +289,10 @@ def gen_case(rng, k):
     name, f = SCENARIOS[k % len(SCENARIOS)]
     lt, cfg, h, applicable = f(rng)
     data = lc.data_kwargs(rng, lt)
+    kern = cfg.pop("_compact", None)
+    if kern:
+        data["kde_kernel"] = kern
+        data["bandwidth"] = 30
     if cfg.pop("_tiny_sigma", False):
         data["ddt_sigma"] = 5.0     # the model Ddt is hundreds of sigma away: every exp(l_i) underflows
     g = cfg.pop("_grid", None)
